@@ -94,7 +94,10 @@ def build_coq():
         open(os.path.join(BUILD, "coq-build.log"), "w").write(out)
         return rc == 0, out, time.time() - t0
 
-_gen_hooks = []
+def _regen_fake_arms():
+    import fake_translate
+    fake_translate.regenerate(REPO, COQ)
+_gen_hooks = [_regen_fake_arms]
 def gen_hook():
     for h in _gen_hooks:
         h()
